@@ -13,6 +13,8 @@ use serde_json::{json, Value};
 pub fn elem_exprs() -> Vec<Value> {
     vec![
         json!(1), json!(0), json!("a"), json!({"var": "k"}), json!({"var": "z"}), json!({"log": "E"}), json!({"+": ["x"]}), json!({"==": []}),
+        // elements that are containers are literals again: nothing inside them is evaluated
+        json!([{"log": "LEAK"}]), json!({"k": {"var": "k"}, "j": [{"log": "LEAK"}]}),
     ]
 }
 
@@ -21,6 +23,7 @@ pub fn preds() -> Vec<Value> {
         json!({"var": ""}), json!(true), json!(false), json!({"==": [{"var": ""}, 1]}), json!({"!": {"var": ""}}), json!({"log": {"var": ""}}),
         json!({"+": ["x"]}), json!({"==": []}), json!({"var": "outer"}), json!({">": [{"var": ""}, 0]}), json!({"in": [{"var": ""}, "aé"]}),
         json!({"if": [{"var": ""}, {"log": "P-t"}, {"log": [0]}]}), json!({"/": [1, {"var": ""}]}),
+        json!({"===": [{"var": "0.log"}, "LEAK"]}), json!({"==": [{"var": "k.var"}, "k"]}),
     ]
 }
 
@@ -31,7 +34,7 @@ pub fn data() -> Value {
 pub fn meta(_thorough: bool) -> (String, Value) {
     (
         "choice tree: collection (literal array of 0..3 expression elements over an 8-letter alphabet with per-position tracer marks; computed arrays; literal and computed strings over {a, 2-, 3-, 4-byte chars}; null; non-collections) -> predicate (13) -> operator (all, some, none); leaf = one apply() compared with R on value, Err-ness and log sequence; laws none == not some, all(p) == none(not p) on non-empty collections; non-trivial = R specifies the outcome; distinct = distinct (rule,data) text".into(),
-        json!({"literal_collections": 1 + 8 + 64 + 512, "predicates": preds().len(), "strings": al::s_uni(3).len()}),
+        json!({"literal_collections": 1 + 10 + 100 + 1000, "predicates": preds().len(), "strings": al::s_uni(3).len()}),
     )
 }
 
@@ -101,6 +104,17 @@ pub fn run(ctx: &mut Ctx) {
                 if n <= 2 {
                     triple(ctx, "computed:merge", &json!({"merge": [{"var": "coll"}]}), p, &dd, Some(n > 0));
                 }
+            }
+        }
+    }
+    // collections (arrays and strings) fetched through hard paths
+    for payload in [json!([1, 0]), json!([0, 0]), json!([1, 1]), json!([]), json!("ab"), json!(""), json!(null), json!([[1], "x", {"a": 1}]), json!(7)] {
+        if !ctx.mine() {
+            continue;
+        }
+        for (name, coll, dd) in al::path_fetches(&payload) {
+            for p in [json!({"var": ""}), json!({">": [{"var": ""}, 0]}), json!({"log": {"var": ""}}), json!(true), json!({"===": [{"var": ""}, "a"]})] {
+                triple(ctx, &format!("fetch:{}", name), &coll, &p, &dd, None);
             }
         }
     }
